@@ -2125,7 +2125,10 @@ class C08(HistProp):
                 "the same record (C08_cursor_decompress), so the first operation of such a history may also be a deletion or an owner-name "
                 "change through a cursor on the still-compressed packet (C08_histories_from_parse_any_first); plus frame/shape lemmas "
                 "(C08_insert_shape, C08_header_setters_keep_view); with failing steps tolerated every such history runs to the end without a "
-                "Panic outcome (C08_histories_total). Operations that move the cursor (TTL / address / name setters, deletion, "
+                "Panic outcome (C08_histories_total). After a successful whole-packet rename of a packet as the parser returned it the object is "
+                "exactly the parse of its new bytes, every field (C08_rename_is_fresh_parse); the cursor that changed an owner name is the "
+                "cursor on the renamed record and advancing it yields the record that followed (C08_cursor_after_rename, "
+                "C08_next_after_rename). Operations that move the cursor (TTL / address / name setters, deletion, "
                 "cursor decompression), insertion of OPT records or of a question, and histories on synthesised objects are decided each run "
                 "by the correspondence plus the fresh-parse oracle on every step of every history.")
 
